@@ -37,7 +37,7 @@ func init() {
 		if tier == "thorough" {
 			n = e + 4000
 		}
-		return Plan{Runs: n, Enumerated: e, Exhaustive: tier == "thorough", Level: "fault_enumeration", Rule: "enumerated runs: every truncation point (prefix length 0..len-1) of a valid DER CRL and of its PEM form, delivered on the handshake-time first-load path (all points) and on the provision-file and refresh paths (all points in thorough, every 4th in quick), a fixed list of valid-but-unusual documents, and every TLV header of the DER document x 9 structural edits (tag swaps, length +1/-1, indefinite and giant lengths, element dropped) (v1, v2 without crlExtensions, no revoked entries, no nextUpdate) on all three paths; further runs: tape-chosen structure-aware mutations (a TLV header's length rewritten to 0x80..0x8f forms / 2^31-1 / 2^63 / beyond the remaining bytes, tag swaps, nesting, random bytes, broken PEM armour, very long lines, hostile authorityKeyIdentifier values) on a tape-chosen path and backend; oracle: no panic or process death, every call returns, allocation of the whole step that parses (including logging and harness bookkeeping, hence the generous constant) <= 64 MiB + 64 x size, with the address space of the run capped at 8 GiB so that a giant allocation kills only that run, a later good delivery is processed; non-trivial = the delivered bytes differ from a valid CRL"}
+		return Plan{Runs: n, Enumerated: e, Exhaustive: tier == "thorough", Level: "fault_enumeration", Rule: "enumerated runs: every truncation point (prefix length 0..len-1) of a valid DER CRL and of its PEM form, delivered on the handshake-time first-load path (all points) and on the provision-file and refresh paths (all points in thorough, every 4th in quick), a fixed list of valid-but-unusual documents, and every TLV header of the DER document x 9 structural edits (tag swaps, length +1/-1, indefinite and giant lengths, element dropped), and 30 PEM framing cases (blank lines at three positions, CR/LF forms, RFC 1421 headers, re-wrapped at 65/66/76 characters, one line, broken or missing armour, padding and NUL inside the body, two blocks, 1 MiB line) x 3 paths (v1, v2 without crlExtensions, no revoked entries, no nextUpdate) on all three paths; further runs: tape-chosen structure-aware mutations (a TLV header's length rewritten to 0x80..0x8f forms / 2^31-1 / 2^63 / beyond the remaining bytes, tag swaps, nesting, random bytes, broken PEM armour, very long lines, hostile authorityKeyIdentifier values) on a tape-chosen path and backend; oracle: no panic or process death, every call returns, allocation of the whole step that parses (including logging and harness bookkeeping, hence the generous constant) <= 64 MiB + 64 x size, with the address space of the run capped at 8 GiB so that a giant allocation kills only that run, a later good delivery is processed; non-trivial = the delivered bytes differ from a valid CRL"}
 	}, Run: runC07})
 }
 
@@ -63,7 +63,109 @@ const c07tlvMax = 72
 var c07structVariants = []string{"tag:=31", "tag:=04", "tag:=30", "len+1", "len-1", "len:=80", "len:=847fffffff", "len:=8410000000", "drop"}
 
 func c07enumCount(tier string) int {
-	return c07truncCount(tier) + c07tlvMax*len(c07structVariants)
+	return c07truncCount(tier) + c07tlvMax*len(c07structVariants) + len(c07pemCases)*3
+}
+
+// c07pemCases: PEM framing, enumerated (each on all three intake paths).
+var c07pemCases = []string{"broken-begin", "no-end", "no-trailing-newline", "1MiB-line", "blank-lines", "non-base64-line", "only-header-and-long-line",
+	"blank-after-begin", "blank-mid", "blank-before-end", "crlf", "crlf-blank-mid", "cr-only-line", "trailing-spaces", "rfc1421-headers", "blank-before-begin",
+	"two-blocks", "lowercase-armour", "wrap-65", "wrap-66", "wrap-76", "single-line", "end-without-dashes", "padding-mid", "nul-in-line", "empty-body",
+	"newline-only", "begin-without-newline", "tab-line", "begin-only-line"}
+
+func c07pem(kind string, b []byte) []byte {
+	begin, end := []byte("-----BEGIN X509 CRL-----\n"), []byte("-----END X509 CRL-----\n")
+	bodyOf := func() []byte { // the base64 lines between the armour lines
+		i := bytes.Index(b, begin) + len(begin)
+		j := bytes.Index(b, end)
+		return b[i:j]
+	}
+	raw := bytes.ReplaceAll(bodyOf(), []byte("\n"), nil)
+	wrap := func(n int, nl string) []byte {
+		var o []byte
+		o = append(o, begin...)
+		for i := 0; i < len(raw); i += n {
+			e := i + n
+			if e > len(raw) {
+				e = len(raw)
+			}
+			o = append(o, raw[i:e]...)
+			o = append(o, nl...)
+		}
+		return append(o, end...)
+	}
+	ins := func(at int, s string) []byte {
+		return append(append(append([]byte(nil), b[:at]...), s...), b[at:]...)
+	}
+	firstNL := bytes.IndexByte(b, '\n') + 1
+	lines := bytes.SplitAfter(b, []byte("\n"))
+	midAt := 0
+	for i := 0; i < len(lines)/2; i++ {
+		midAt += len(lines[i])
+	}
+	switch kind {
+	case "broken-begin":
+		return bytes.Replace(b, []byte("-----BEGIN X509 CRL-----"), []byte("-----BEGIN X509 CRL----"), 1)
+	case "no-end":
+		return bytes.Replace(b, end, nil, 1)
+	case "no-trailing-newline":
+		return bytes.TrimRight(b, "\n")
+	case "1MiB-line":
+		return ins(firstNL, string(bytes.Repeat([]byte("QUJD"), 256<<10))+"\n")
+	case "blank-lines":
+		return bytes.ReplaceAll(b, []byte("\n"), []byte("\n\n"))
+	case "non-base64-line":
+		return ins(firstNL, "@@@@ not base64 @@@@\n")
+	case "only-header-and-long-line":
+		return append(append([]byte(nil), begin...), bytes.Repeat([]byte("A"), 70)...)
+	case "blank-after-begin":
+		return ins(firstNL, "\n")
+	case "blank-mid":
+		return ins(midAt, "\n")
+	case "blank-before-end":
+		return ins(bytes.Index(b, end), "\n")
+	case "crlf":
+		return bytes.ReplaceAll(b, []byte("\n"), []byte("\r\n"))
+	case "crlf-blank-mid":
+		c := bytes.ReplaceAll(ins(midAt, "\n"), []byte("\n"), []byte("\r\n"))
+		return c
+	case "cr-only-line":
+		return ins(midAt, "\r")
+	case "trailing-spaces":
+		return bytes.ReplaceAll(b, []byte("\n"), []byte("  \n"))
+	case "rfc1421-headers":
+		return ins(firstNL, "Proc-Type: 4,ENCRYPTED\nDEK-Info: AES-128-CBC,00\n\n")
+	case "blank-before-begin":
+		return append([]byte("\n\n"), b...)
+	case "two-blocks":
+		return append(append([]byte(nil), b...), b...)
+	case "lowercase-armour":
+		return bytes.ReplaceAll(bytes.ReplaceAll(b, []byte("BEGIN X509 CRL"), []byte("begin x509 crl")), []byte("END X509 CRL"), []byte("end x509 crl"))
+	case "wrap-65":
+		return wrap(65, "\n")
+	case "wrap-66":
+		return wrap(66, "\n")
+	case "wrap-76":
+		return wrap(76, "\r\n")
+	case "single-line":
+		return wrap(len(raw), "\n")
+	case "end-without-dashes":
+		return bytes.Replace(b, end, []byte("END X509 CRL\n"), 1)
+	case "padding-mid":
+		return ins(midAt, "QQ==\n")
+	case "nul-in-line":
+		return ins(midAt+3, "\x00\x00")
+	case "empty-body":
+		return append(append([]byte(nil), begin...), end...)
+	case "newline-only":
+		return []byte("\n")
+	case "begin-without-newline":
+		return []byte("-----BEGIN X509 CRL-----")
+	case "tab-line":
+		return ins(midAt, "\t\n")
+	case "begin-only-line":
+		return append([]byte(nil), begin...)
+	}
+	panic("harness: unknown PEM case " + kind)
 }
 
 func c07truncCount(tier string) int {
@@ -177,7 +279,14 @@ func runC07(h *Harness) {
 		}, "refresh"},
 	}
 	done := false
-	if idx >= c07truncCount(h.Tier) && idx < enum {
+	if pemBase := c07truncCount(h.Tier) + c07tlvMax*len(c07structVariants); idx >= pemBase && idx < enum {
+		j := idx - pemBase
+		k := c07pemCases[j%len(c07pemCases)]
+		path = c07paths[j/len(c07pemCases)]
+		body, desc = c07pem(k, pemDoc.Bytes), "pem:"+k
+		backend = []string{"memory", "disk"}[h.Idx%2]
+		done = true
+	} else if idx >= c07truncCount(h.Tier) && idx < enum {
 		// structural edits, enumerated: every TLV header of the DER document x variant, on the first-load path and
 		// (every third) on the refresh path
 		j := idx - c07truncCount(h.Tier)
@@ -386,25 +495,8 @@ func c07unusualDoc(w *World, kind string) []byte {
 func c07mutate(tp *Tape, w *World, base *CRLSpec) ([]byte, string) {
 	b := append([]byte(nil), base.Bytes...)
 	if base.PEM {
-		switch tp.Int(7) {
-		case 0:
-			return bytes.Replace(b, []byte("-----BEGIN X509 CRL-----"), []byte("-----BEGIN X509 CRL----"), 1), "pem:broken-begin"
-		case 1:
-			return bytes.Replace(b, []byte("-----END X509 CRL-----\n"), nil, 1), "pem:no-end"
-		case 2:
-			return bytes.TrimRight(b, "\n"), "pem:no-trailing-newline"
-		case 3:
-			long := bytes.Repeat([]byte("QUJD"), 256<<10)
-			i := bytes.IndexByte(b, '\n') + 1
-			return append(append(append([]byte(nil), b[:i]...), append(long, '\n')...), b[i:]...), "pem:1MiB-line"
-		case 4:
-			return bytes.ReplaceAll(b, []byte("\n"), []byte("\n\n")), "pem:blank-lines"
-		case 5:
-			i := bytes.IndexByte(b, '\n') + 1
-			return append(append(append([]byte(nil), b[:i]...), []byte("@@@@ not base64 @@@@\n")...), b[i:]...), "pem:non-base64-line"
-		default:
-			return append([]byte("-----BEGIN X509 CRL-----\n"), bytes.Repeat([]byte("A"), 70)...), "pem:only-header-and-long-line"
-		}
+		k := c07pemCases[tp.Int(len(c07pemCases))]
+		return c07pem(k, b), "pem:" + k
 	}
 	var ts []tlv
 	walkDER(b, 0, 0, &ts)
